@@ -143,12 +143,21 @@ def wl(t):
 
 # ----------------------------------------------------------------------------- recorders
 
+class InjectedError(RuntimeError):
+    """raised on purpose by a recording solver / corrector (a user callback that fails)"""
+
+
 class RecCorr(nn.Module):
-    def __init__(self, inner, tag, log):
+    def __init__(self, inner, tag, log, box=None):
         super().__init__()
         self.inner, self.tag, self.log = inner, tag, log
+        self.box = box if box is not None else {}
 
     def forward(self, R, J):
+        if self.box.get("raise_corr") == self.box.get("n_corr_calls", 0):
+            self.box["n_corr_calls"] = self.box.get("n_corr_calls", 0) + 1
+            raise InjectedError("injected: the user's corrector raises")
+        self.box["n_corr_calls"] = self.box.get("n_corr_calls", 0) + 1
         out = self.inner(R=R, J=J)
         Rc, Jc = out
         self.log.append({"tag": self.tag, "R": raw(R).clone(), "J": raw(J).clone(), "Rc": raw(Rc).clone(), "Jc": raw(Jc).clone()})
@@ -161,6 +170,7 @@ class RecSolver(nn.Module):
         self.inner, self.log = inner, log
         self.opt = None
         self.bad = []          # factors for the first calls of the current step
+        self.raise_at = None   # index of the solver call (within the current step) that raises
 
     def forward(self, A, b):
         pg = self.opt.param_groups[0]
@@ -168,6 +178,9 @@ class RecSolver(nn.Module):
                "params": [raw(p).clone() for p in pg["params"]]}
         k = len(self.log)
         self.log.append(rec)
+        if self.raise_at is not None and k == self.raise_at:
+            rec["raised"] = "InjectedError"
+            raise InjectedError("injected: the user's solver raises")
         try:
             D = self.inner(A=A, b=b)
         except Exception as e:      # LM prints the message and breaks out of its loop (property C08 / C10)
@@ -237,6 +250,14 @@ def build_solver(name):
         return S.Cholesky()
     if name == "CG":
         return S.CG(tol=1e-8)
+    if name == "Cholesky_upper":
+        return S.Cholesky(upper=True)
+    if name == "PINV_herm":
+        return S.PINV(hermitian=True)
+    if name == "LSTSQ_gelsd":
+        return S.LSTSQ(driver="gelsd")
+    if name == "LSTSQ_gelss":
+        return S.LSTSQ(rcond=1e-14, driver="gelss")
     if name == "default":
         return None
     raise ValueError(name)
@@ -327,6 +348,8 @@ def target_tensors(tg, D):
             tl.append(tl[t["alias_of"]]); info.append(None)
         else:
             v, buf = G.laid_out(torch.tensor(t["values"], dtype=torch.float64).to(D).reshape(t["shape"]), t.get("layout"))
+            if t.get("as_lie"):        # (13) the target of an algebra-valued output given as a LieTensor
+                v = pp().LieTensor(v, ltype=U.ltype(U.ALG[t["as_lie"]]))
             tl.append(v); info.append((buf, t.get("layout")))
     return tl, info
 
@@ -365,25 +388,40 @@ def build_env(case):
     env.kernels = build_arg(case["kernel"], build_kernel)
     env.corr_log, env.sol_log, env.str_log = [], [], []
     corr = build_arg(case["corrector"], build_corrector)
+    if case.get("ktuple"):      # (13) tuples are accepted wherever lists are
+        env.kernels = tuple(env.kernels) if isinstance(env.kernels, list) else env.kernels
+        corr = tuple(corr) if isinstance(corr, list) else corr
     inner = build_solver(case["solver"])
     env.wctor, env.wctor_info = weight_tensors(case["weight_ctor"], D, with_info=True)
+    wct = pass_weight(env.wctor, case.get("wstyle", "list"))
+    pos = case.get("ctor_style") == "pos"       # (10) positional vs keyword passing
     if case["opt"] == "GN":
-        opt = P.optim.GN(env.model, solver=inner, kernel=env.kernels, corrector=corr,
-                         weight=pass_weight(env.wctor, case.get("wstyle", "list")), vectorize=case["vectorize"])
+        if pos:
+            opt = P.optim.GN(env.model, inner, env.kernels, corr, wct, case["vectorize"])
+        else:
+            opt = P.optim.GN(env.model, solver=inner, kernel=env.kernels, corrector=corr, weight=wct, vectorize=case["vectorize"])
     else:
         strat = RecStrategy(build_strategy(case["strategy"]), env.str_log) if case["strategy"] is not None else None
-        opt = P.optim.LM(env.model, solver=inner, strategy=strat, kernel=env.kernels, corrector=corr,
-                         weight=pass_weight(env.wctor, case.get("wstyle", "list")),
-                         reject=case["reject"], min=case["min"], max=case["max"], vectorize=case["vectorize"])
+        opts = {}
+        for k_ in ("reject", "min", "max"):         # None = the argument is not passed (library default)
+            if case.get(k_) is not None:
+                opts[k_] = case[k_]
+        if pos and len(opts) == 3 and case.get("strategy") is not None:
+            opt = P.optim.LM(env.model, inner, strat, env.kernels, corr, wct, case["reject"], case["min"], case["max"], case["vectorize"])
+        else:
+            opt = P.optim.LM(env.model, solver=inner, strategy=strat, kernel=env.kernels, corrector=corr, weight=wct,
+                             vectorize=case["vectorize"], **opts)
         if strat is None:   # default strategy: wrap what the optimizer created
             opt.strategy = RecStrategy(opt.strategy, env.str_log)
+    env.user_corr = corr
     env.default_solver = type(opt.solver).__name__
     env.solver = RecSolver(opt.solver, env.sol_log)
     env.solver.opt = opt
     opt.solver = env.solver
     env.n_corr = len(opt.corrector)
     env.corr_inner = list(opt.corrector)
-    opt.corrector = [RecCorr(c, j, env.corr_log) for j, c in enumerate(opt.corrector)]
+    env.box = {}
+    opt.corrector = [RecCorr(c, j, env.corr_log, env.box) for j, c in enumerate(opt.corrector)]
     env.opt = opt
     env.names = [n for n, _ in env.model.named_parameters()]
     env.params = [getattr(env.model, n) for n in env.names]
@@ -415,7 +453,7 @@ def setup_call(env, ci):
         with torch.no_grad():
             for a_, b_ in zip(env.target_list, tl):
                 if a_ is not None:
-                    a_.copy_(b_)
+                    raw(a_).copy_(raw(b_))
     else:
         env.target_list, env.t_info = tl, tinfo
     env.target = pack_target(ecase, env.target_list)
@@ -640,18 +678,64 @@ def public_state(opt):
 def check_case(ctx: Ctx, case, pending):
     """class (8) of the hardening list: whatever the implementation does (wrong shapes, wrong types, exceptions in places
     the harness did not foresee) must end as a reported failure with the case, never as a crash of the harness"""
+    return run_interleaved(ctx, [case], pending)[0]
+
+
+def run_interleaved(ctx: Ctx, cases, pending):
+    """(17) the histories of several cases (different optimizers, dtypes, objects) advance in turn, one step() at a time,
+    in one process; every history is judged exactly as if it ran alone"""
+    gens = [_check_case_gen(ctx, c_, pending) for c_ in cases]
+    res = [None] * len(cases)
+    live = list(range(len(cases)))
+    while live:
+        for i_ in list(live):
+            try:
+                next(gens[i_])
+            except StopIteration as e:
+                res[i_] = bool(e.value)
+                live.remove(i_)
+            except common.InfraError:
+                raise
+            except Exception as e:
+                import traceback
+                ctx.fail(cdesc(cases[i_]), f"crash: the step produced something the check could not process — {type(e).__name__}: "
+                                           f"{str(e)[:160]} | " + traceback.format_exc()[-600:].replace("\n", " / "))
+                res[i_] = False
+                live.remove(i_)
+    return res
+
+
+def make_twin(env, case):
+    """(14) an independent optimizer in the same state: fresh model + optimizer, model.load_state_dict and
+    optimizer.load_state_dict of the original (deepcopy / pickle of the optimizer itself drop every attribute through
+    torch's Optimizer.__getstate__ on the clean tree — an observation, see notes)"""
     try:
-        return _check_case(ctx, case, pending)
-    except common.InfraError:
-        raise
-    except Exception as e:
-        import traceback
-        ctx.fail(cdesc(case), f"crash: the step produced something the check could not process — {type(e).__name__}: {str(e)[:160]} | "
-                              + traceback.format_exc()[-600:].replace("\n", " / "))
-        return False
+        tw = build_env(case)
+        tw.model.load_state_dict(env.model.state_dict())
+        tw.opt.load_state_dict(env.opt.state_dict())
+        if hasattr(env.opt, "loss"):
+            tw.opt.loss = env.opt.loss.clone()
+        if hasattr(env.opt, "last"):
+            tw.opt.last = env.opt.last.clone() if isinstance(env.opt.last, torch.Tensor) else env.opt.last
+        tw.ecase, tw.ins = None, None
+        if env.ecase is not None:
+            tw.ecase = env.ecase
+        return tw
+    except Exception:
+        return None
 
 
-def _check_case(ctx: Ctx, case, pending):
+def twin_snapshot(env, ref=None):
+    cur = ([raw(p_).clone() for p_ in env.params],
+           {k_: v_ for k_, v_ in env.opt.param_groups[0].items() if k_ != "params"})
+    if ref is None:
+        return cur
+    same = all(torch.equal(torch.nan_to_num(a_, nan=12345.0), torch.nan_to_num(b_, nan=12345.0)) for a_, b_ in zip(cur[0], ref[0])) \
+        and cur[1] == ref[1]
+    return same
+
+
+def _check_case_gen(ctx: Ctx, case, pending):
     """runs every call of the case on the real code; oracles -> ctx.fail immediately; model comparisons are appended to
     `pending` as (line, callback(reply))"""
     P = pp()
@@ -665,13 +749,44 @@ def _check_case(ctx: Ctx, case, pending):
         ctx.fail(cd, f"construct: optimizer construction raises {type(e).__name__}: {str(e)[:160]}")
         return False
     opt = env.opt
-    ok = True
+    # (10) what was passed to the constructor — positionally or by keyword — is what the optimizer uses
+    pg_ = opt.param_groups[0]
+    want_args = {}
+    if case["opt"] == "LM":
+        want_args = {"min": 1e-6 if case.get("min") is None else case["min"], "max": 1e32 if case.get("max") is None else case["max"]}
+        if float(pg_["min"]) != float(want_args["min"]) or float(pg_["max"]) != float(want_args["max"]) \
+                or opt.reject != (16 if case.get("reject") is None else case["reject"]):
+            ctx.fail(cd, f"ctor-args: LM(min={case.get('min')}, max={case.get('max')}, reject={case.get('reject')}, style "
+                         f"{case.get('ctor_style')}) holds min={pg_['min']}, max={pg_['max']}, reject={opt.reject}")
+            return False
+        sp_ = case.get("strategy")
+        if sp_ is not None and "damping" in sp_ and float(pg_["damping"]) != float(sp_["damping"]):
+            ctx.fail(cd, f"ctor-args: strategy damping {sp_['damping']} but param_groups hold {pg_['damping']}")
+            return False
+    if opt.jackwargs.get("vectorize") != case["vectorize"]:
+        ctx.fail(cd, f"ctor-args: vectorize={case['vectorize']} but the optimizer holds {opt.jackwargs}")
+        return False
+    uc = env.user_corr
+    if uc is not None:
+        ucl = list(uc) if isinstance(uc, (list, tuple)) else [uc]
+        got_ = env.corr_inner
+        okc = len(got_) == len(ucl) and all((g_ is u_) if u_ is not None else type(g_).__name__ == "Trivial" for g_, u_ in zip(got_, ucl))
+        if not okc:
+            ctx.fail(cd, f"ctor-args: the corrector(s) passed to the constructor are not the ones the optimizer uses "
+                         f"(configured {[type(u_).__name__ for u_ in ucl]}, in use {[type(g_).__name__ for g_ in got_]}; kernel "
+                         f"{'given' if case['kernel'] is not None else 'not given'})")
+            return False
     n_frozen = sum(1 for lf in case["leaves"] if lf["role"] == "param" and not lf["rg"] and (lf.get("zerodim") or math.prod(lf["lshape"]) > 0))
     cd["n_frozen"] = n_frozen
     numels = [int(raw(p).numel()) for p in env.params]
 
-    for ci, call in enumerate(case["calls"]):
-        tag = f"call{ci}"
+    st = {"ok": True}
+
+    def do_call(env, ci, who=""):
+        """one step() of the history on `env` (the case's optimizer or its state_dict twin)"""
+        call = case["calls"][ci]
+        opt = env.opt
+        tag = f"call{ci}{who}"
         pg = opt.param_groups[0]
         for key, val in (call.get("pg_edit") or {}).items():
             pg[key] = val
@@ -694,37 +809,74 @@ def _check_case(ctx: Ctx, case, pending):
         nres = len(shapes)
         if not all(bool(torch.isfinite(o).all()) for o in outs0) or not all(bool(torch.isfinite(p_).all()) for p_ in before):
             ctx.count("degenerate.nonfinite-forward")     # earlier (deliberately bad) steps drove the model out of its domain
-            return ok
+            return "stop"
         # raw Jacobian blocks, as the optimizer obtains them
         try:
             with contextlib.redirect_stdout(io.StringIO()):
                 Jraw = P.optim.functional.modjac(opt.model, input=(env.input, env.target), flatten=False, vectorize=case["vectorize"])
         except Exception as e:
             ctx.fail(cd, f"modjac: raises {type(e).__name__}: {str(e)[:200]}")
-            return False
+            st["ok"] = False
+            return "stop"
         env.corr_log.clear(); env.sol_log.clear(); env.str_log.clear()
         env.solver.bad = list(call.get("bad") or [])
         wstep = env.wstep
         weff_t = env.wstep if call.get("weight", "none") == "step" else env.wctor
         weff = None if weff_t is None else [w_.clone() for w_ in weff_t]       # logical values at call time
         # what the caller holds, bit for bit (purity) + the optimizer's public attributes
-        held = ([("input", raw(t_)) for t_ in env.ins] + [("target", t_) for t_ in (env.target_list or []) if t_ is not None]
+        held = ([("input", raw(t_)) for t_ in env.ins] + [("target", raw(t_)) for t_ in (env.target_list or []) if t_ is not None]
                 + [("step weight", t_) for t_ in (env.wstep or [])] + [("constructor weight", t_) for t_ in (env.wctor or [])])
         snaps = [t_.clone() for _, t_ in held]
         pub0 = public_state(opt)
+        pg0 = {k_: v_ for k_, v_ in opt.param_groups[0].items() if k_ != "params"}
+        prev_loss = float(opt.loss) if hasattr(opt, "loss") else None
+        # (11) a user callback that fails / a documented argument check that fires
+        inj = call.get("raise") or {}
+        env.solver.raise_at = inj.get("at") if inj.get("where") == "solver" else None
+        env.box.clear()
+        if inj.get("where") == "corrector":
+            env.box["raise_corr"] = inj.get("at", 0)
+        wpass = pass_weight(wstep, case.get("wstyle", "list"))
+        if call.get("bad_weight_count") and wstep is not None:
+            wpass = list(wstep) + [wstep[0]]            # one weight too many: `assert len(R) == len(weight)`
+        # (12) grad modes: the values of a step do not depend on them
+        rq = call.get("req_grad") or []
+        for nm_, t_ in ([("inputs", raw_leaf) for raw_leaf in env.ins] + [("targets", t__) for t__ in (env.target_list or []) if t__ is not None]
+                        + [("weights", t__) for t__ in (wstep or [])]):
+            if nm_ in rq and t_.is_floating_point() and t_.is_leaf and t_.data_ptr() not in {q_.data_ptr() for q_ in (env.wctor or [])}:
+                t_.requires_grad_(True)
+        gm = call.get("grad")
+        gctx = {"no_grad": torch.no_grad, "enable_grad": torch.enable_grad, "inference": torch.inference_mode}.get(gm, contextlib.nullcontext)
         raised = None
         try:
-            with contextlib.redirect_stdout(io.StringIO()), warnings.catch_warnings():
+            with contextlib.redirect_stdout(io.StringIO()), warnings.catch_warnings(), gctx():
                 warnings.simplefilter("ignore")
-                loss = opt.step(env.input, target=env.target, weight=pass_weight(wstep, case.get("wstyle", "list")))
+                sstyle = call.get("step_style", "kw")      # (10) keyword vs positional passing
+                if sstyle == "pos":
+                    loss = opt.step(env.input, env.target, wpass)
+                elif sstyle == "allkw":
+                    loss = opt.step(input=env.input, target=env.target, weight=wpass)
+                else:
+                    loss = opt.step(env.input, target=env.target, weight=wpass)
         except Exception as e:
             raised = e
+        for nm_, t_ in ([("inputs", raw_leaf) for raw_leaf in env.ins] + [("targets", t__) for t__ in (env.target_list or []) if t__ is not None]
+                        + [("weights", t__) for t__ in (wstep or [])]):
+            if t_.is_leaf and t_.requires_grad:
+                t_.requires_grad_(False)
+        if gm:
+            ctx.count(f"gradmode.{gm}")
+        if rq:
+            ctx.count("gradmode.requires_grad-operands")
+        if gm == "inference" and raised is not None and not isinstance(raised, InjectedError):
+            ctx.count("gradmode.inference-unsupported")      # scope rule: code that needs autograd under inference_mode
+            return "stop"
         after = [raw(p).clone() for p in env.params]
         # purity of everything the caller passed, guard regions of the buffers behind views, public attributes
         for (nm, t_), s0 in zip(held, snaps):
             if not torch.equal(torch.nan_to_num(t_, nan=12345.0), torch.nan_to_num(s0, nan=12345.0)):
                 ctx.fail(cd, f"purity: step() changed the caller's {nm} tensor ({tag})")
-                ok = False
+                st["ok"] = False
         bufs_ok = (all(G.guard_ok(b_, l_) for b_, l_ in getattr(env, "in_bufs", [])) and weight_guard_ok(env.wstep_info)
                    and weight_guard_ok(env.wctor_info) and all(G.guard_ok(*i_) for i_ in getattr(env, "t_info", []) if i_ is not None))
         for nm_, buf_, lay_ in env.model.param_bufs:
@@ -737,21 +889,41 @@ def _check_case(ctx: Ctx, case, pending):
             if not torch.equal(torch.nan_to_num(region, nan=12345.0), torch.nan_to_num(raw(getattr(env.model, nm_)), nan=12345.0)):
                 ctx.fail(cd, f"aliasing: parameter {nm_} is a view of the caller's buffer, but after step() the buffer no longer holds "
                              f"the parameter's values (the update was not made in place) ({tag})")
-                ok = False
+                st["ok"] = False
         if not bufs_ok:
             ctx.fail(cd, f"purity: step() wrote outside a view (storage of the caller's buffer next to an input / target / weight / parameter view changed) ({tag})")
-            ok = False
+            st["ok"] = False
         pub1 = public_state(opt)
         if pub1 != pub0:
             diff = [k_ for k_ in pub0 if pub0[k_] != pub1[k_]]
             ctx.fail(cd, f"attributes: step() changed public attributes {diff} of the optimizer ({tag})")
-            ok = False
+            st["ok"] = False
+        expected_fail = (isinstance(raised, InjectedError)
+                         or (call.get("bad_weight_count") and wstep is not None and isinstance(raised, AssertionError)))
+        if (inj.get("where") == "corrector" or (inj.get("where") == "solver" and case["opt"] == "GN")) and not isinstance(raised, InjectedError):
+            ctx.fail(cd, f"atomic: the exception of the user's {inj['where']} did not reach the caller of step() ({tag})")
+            st["ok"] = False
+            return "stop"
+        if call.get("bad_weight_count") and wstep is not None and raised is None:
+            ctx.fail(cd, f"atomic: step() accepted {len(wpass)} weights for {nres} residuals (documented check `len(R) == len(weight)`) ({tag})")
+            st["ok"] = False
+            return "stop"
+        if expected_fail:
+            # (11) the failed call must leave everything as it was: parameters bit for bit, param_groups, attributes
+            pg1 = {k_: v_ for k_, v_ in opt.param_groups[0].items() if k_ != "params"}
+            same_p = all(torch.equal(torch.nan_to_num(a_, nan=12345.0), torch.nan_to_num(b_, nan=12345.0)) for a_, b_ in zip(after, before))
+            if not same_p or pg1 != pg0:
+                what_ = "parameters" if not same_p else f"param_groups entries {[k_ for k_ in pg0 if pg0[k_] != pg1.get(k_)]}"
+                ctx.fail(cd, f"atomic: step() raised ({type(raised).__name__}) but left {what_} changed ({tag})")
+                st["ok"] = False
+            ctx.count("atomic.failed-call-checked")
+            return "go"
         if raised is not None:
             msg = f"{type(raised).__name__}: {str(raised)[:160]}"
             _, outs1 = residual_shapes(env)
             if not all(bool(torch.isfinite(o).all()) for o in outs1):
                 ctx.count("degenerate.nonfinite-forward")   # a (deliberately bad) trial step left the model's domain
-                return ok
+                return "stop"
             lays = [w_.get("layout", "contig") for w_ in ((ecase["weight_step"] if call.get("weight") == "step" else ecase["weight_ctor"]) or [])]
             if "view size is not compatible" in str(raised) and any(l_ != "contig" for l_ in lays):
                 ctx.fail(cd, f"weight-view: step() raises for a valid SPD weight of a documented shape whose storage is not contiguous "
@@ -760,19 +932,35 @@ def _check_case(ctx: Ctx, case, pending):
                 ctx.fail(cd, f"frozen: step() raises for a model with a requires_grad=False parameter ({msg})")
             else:
                 ctx.fail(cd, f"raises: step() raises {msg}")
-            return False
+            st["ok"] = False
+            return "stop"
         if n_frozen:
             ctx.count("frozen.steps")
+        if inj.get("where") == "solver" and case["opt"] == "LM" and env.sol_log and "raised" in env.sol_log[0] and inj.get("at") == 0:
+            pg1 = {k_: v_ for k_, v_ in opt.param_groups[0].items() if k_ != "params"}
+            if not all(torch.equal(a_, b_) for a_, b_ in zip(after, before)) or pg1 != pg0:
+                ctx.fail(cd, f"atomic: the solver raised in the first trial but LM left parameters / param_groups changed ({tag})")
+                st["ok"] = False
+            ctx.count("atomic.failed-call-checked")
+        # (15) the updated parameters own their memory: no overlap with anything the caller passed, no stride-0 dimension
+        held_ptrs = {t_.untyped_storage().data_ptr() for _, t_ in held if t_.numel()}
+        for pi_, p_ in enumerate(env.params):
+            rp_ = raw(p_)
+            if rp_.numel() > 1 and (rp_.untyped_storage().data_ptr() in held_ptrs
+                                    or any(st_ == 0 and sz_ > 1 for st_, sz_ in zip(rp_.stride(), rp_.shape))):
+                ctx.fail(cd, f"ownership: after step() parameter {pi_} shares memory with a tensor the caller passed or overlaps itself ({tag})")
+                st["ok"] = False
 
         # ---------------- corrector dispatch, raw residuals, Jacobian
         tags = [c["tag"] for c in env.corr_log]
         if len(env.corr_log) != nres:
             ctx.fail(cd, f"corrector: {len(env.corr_log)} corrector calls for {nres} residuals ({tag})")
-            return False
+            st["ok"] = False
+            return "stop"
 
         if not all(bool(torch.isfinite(c_[k_]).all()) for c_ in env.corr_log for k_ in ("R", "J", "Rc", "Jc")):
             ctx.count("degenerate.nonfinite-residual")
-            return ok
+            return "stop"
 
         def cb_pick(rep, tags=tags, cd=cd, tag=tag, ncorr=env.n_corr):
             st, toks = common.parse_reply(rep)
@@ -816,28 +1004,30 @@ def _check_case(ctx: Ctx, case, pending):
                 if not (e1 <= lim1 and e2 <= lim2):    # NaN counts as failure
                     ctx.fail(cd, f"corrector: with corrector=None residual {i} must be corrected by FastTriggs of its own configured kernel "
                                  f"({kspec}): R' error {e1:.3e}, J' error {e2:.3e} ({tag})")
-                    ok = False
+                    st["ok"] = False
             ctx.count("corr.auto-checked")
         ncols = int(env.corr_log[0]["J"].shape[1])
         jac_params = [i for i, r in enumerate(env.rg) if r]
         if ncols != sum(numels[i] for i in jac_params):
             ctx.fail(cd, f"jac-width: Jacobian has {ncols} columns; the parameters that require grad have numel "
                          f"{[numels[i] for i in jac_params]} (all: {numels}, requires_grad {env.rg})")
-            return False
+            st["ok"] = False
+            return "stop"
         # residuals
         for i in range(nres):
             o = outs0[i]
             t = None if env.target_list is None else env.target_list[i]
+            t = None if t is None else raw(t)
             want = o if t is None else o - t
             got = env.corr_log[i]["R"]
             if list(got.shape) != list(want.shape):
                 ctx.fail(cd, f"residual: residual {i} has shape {list(got.shape)}, output - target has {list(want.shape)} ({tag})")
-                ok = False
+                st["ok"] = False
             else:
                 r, _ = worst(got, want, torch.maximum(o.abs(), want.abs()) + (0 if t is None else t.abs()), 4 * eps)
                 if r > 1:
                     ctx.fail(cd, f"residual: residual {i} is not output_i - target_i (ratio {r:.2e}) ({tag})")
-                    ok = False
+                    st["ok"] = False
         # hcat correspondence: raw blocks -> J_i
         for i in range(nres):
             Ji = env.corr_log[i]["J"]
@@ -845,7 +1035,8 @@ def _check_case(ctx: Ctx, case, pending):
             blocks = Jraw[i] if isinstance(Jraw[i], (tuple, list)) else (Jraw[i],)
             if len(blocks) != len(numels):
                 ctx.fail(cd, f"jac-width: modjac returns {len(blocks)} blocks for {len(numels)} parameters ({tag})")
-                return False
+                st["ok"] = False
+                return "stop"
             if not all(bool(torch.isfinite(raw(b)).all()) for b in blocks):
                 continue
             data = " ".join(x for x in (wl(raw(b)) for b in blocks) if x)
@@ -877,12 +1068,15 @@ def _check_case(ctx: Ctx, case, pending):
                 tolj = 2e-3 if f32 else 1e-6
                 if Jobs.shape != Jfd.shape:
                     ctx.fail(cd, f"jac: stacked Jacobian has shape {list(Jobs.shape)}, expected {list(Jfd.shape)} ({tag})")
-                    ok = False
+                    st["ok"] = False
                 else:
                     # per (residual, parameter) block: relative to that block's own scale (a global scale would swallow a
                     # wrong small block next to a large one) + the absolute accuracy of the finite differences
                     err = (Jobs - Jfd).abs()
                     gsc = max(1.0, float(Jfd.abs().max()))
+                    # cancellation noise of both the backward passes and the finite differences grows with the magnitudes
+                    # that meet inside the program (translations 1e3 in X·X^-1 leave 1e3·1e3·eps), not with the output
+                    vmag = max([float(p_.abs().max()) for p_ in before if p_.numel()] + [float(raw(t_).abs().max()) for t_ in env.ins if raw(t_).numel()] + [0.0])
                     lim = torch.zeros_like(err)
                     r0 = 0
                     for i_ in range(nres):
@@ -892,7 +1086,7 @@ def _check_case(ctx: Ctx, case, pending):
                         for pi in jac_params:
                             c1 = c0 + numels[pi]
                             bsc = float(Jfd[r0:r1, c0:c1].abs().max()) if (r1 > r0 and c1 > c0) else 0.0
-                            lim[r0:r1, c0:c1] = (tolj * gsc) if f32 else (tolj * bsc + 1e-9 * (1.0 + omag))
+                            lim[r0:r1, c0:c1] = (tolj * gsc) if f32 else (tolj * bsc + 1e-9 * (1.0 + omag) + 1e-11 * (1.0 + vmag) ** 2)
                             c0 = c1
                         r0 = r1
                     if bool((err > lim).any()):
@@ -900,7 +1094,7 @@ def _check_case(ctx: Ctx, case, pending):
                         ij = (ratio == ratio.max()).nonzero()[0].tolist()
                         ctx.fail(cd, f"jac: Jacobian seen by the optimizer differs from the tangent-space finite-difference Jacobian "
                                      f"by {float(err[ij[0], ij[1]]):.3e} (allowed {float(lim[ij[0], ij[1]]):.3e}) at row/col {ij} ({tag})")
-                        ok = False
+                        st["ok"] = False
                     # slot columns of group parameters are exactly zero
                     o = 0
                     for pi in jac_params:
@@ -909,7 +1103,7 @@ def _check_case(ctx: Ctx, case, pending):
                             for it in range(n_):
                                 if sd > td and float(Jobs[:, o + it * sd + td: o + (it + 1) * sd].abs().max()) != 0.0:
                                     ctx.fail(cd, f"jac: non-zero Jacobian column in the unused storage slot of a group parameter ({tag})")
-                                    ok = False
+                                    st["ok"] = False
                         o += numels[pi]
                 ctx.count("jac.checked")
             else:
@@ -922,8 +1116,12 @@ def _check_case(ctx: Ctx, case, pending):
         m = sum(rows_i)
         n = ncols
         if not env.sol_log:
+            if prev_loss is not None and not math.isfinite(prev_loss):
+                ctx.count("degenerate.nan-cached-loss")    # LM's `while last <= loss` is false for the NaN loss an earlier
+                return "stop"                                   # (deliberately bad / overflowing) call left behind — C08's domain
             ctx.fail(cd, f"solve: the solver was never called ({tag})")
-            return False
+            st["ok"] = False
+            return "stop"
         ind = indep_system(Rc, Jc, shapes, weff, n)
         hdr = f"{n} {nres} " + " ".join(map(str, rows_i))
         if weff is None:
@@ -943,13 +1141,14 @@ def _check_case(ctx: Ctx, case, pending):
             A, b = s0["A"], s0["b"].reshape(-1)
             if list(A.shape) != [m, n] or b.numel() != m:
                 ctx.fail(cd, f"weight: GN system has shape {list(A.shape)}, {list(s0['b'].shape)}; expected {[m, n]}, {[m, 1]} ({tag})")
-                return False
+                st["ok"] = False
+                return "stop"
             r1, i1 = worst(A, ind["WJ"], ind["aWJ"], 64 * eps, fl)
             r2, i2 = worst(b, -ind["WR"], ind["aWR"], 64 * eps, fl)
             if r1 > 1 or r2 > 1:
                 ctx.fail(cd, f"weight: GN system is not (W J', -W R') with W applied per residual item: A ratio {r1:.2e} at {i1}, "
                              f"b ratio {r2:.2e} at {i2} (weights {wtag}) ({tag})")
-                ok = False
+                st["ok"] = False
             line = "c07.gn " + hdr + (" " + rdata if rdata else "") + (" " + wdata if wdata else "")
 
             def cb_gn(rep, A=A, b=b, ind=ind, cd=cd, tag=tag, m=m, n=n, eps=eps, wtag=wtag, fl=fl):
@@ -980,7 +1179,8 @@ def _check_case(ctx: Ctx, case, pending):
                 A, b = s["A"], s["b"].reshape(-1)
                 if list(A.shape) != [n, n] or b.numel() != n:
                     ctx.fail(cd, f"lm-system: LM system has shape {list(A.shape)}; expected {[n, n]} ({tag})")
-                    return False
+                    st["ok"] = False
+                    return "stop"
                 prodf = prodf * (1.0 + lams[k_])
                 if float(sc_d.max()) * prodf > 1e-3 * float(torch.finfo(env.D).max) or not math.isfinite(prodf):
                     ctx.count("degenerate.damping-overflow")     # the damped diagonal leaves the dtype's range
@@ -997,7 +1197,7 @@ def _check_case(ctx: Ctx, case, pending):
                     ctx.fail(cd, f"lm-system: trial {k_ + 1} of {K}: A_k is not JᵀWJ with its diagonal clamped to [{lo:g},{hi:g}] and damped by "
                                  f"prod(1+lambda_i), lambdas {lams[:k_ + 1]} (A ratio {r1:.2e} at {i1}), or b is not -JᵀWR (ratio {r2:.2e} at {i2}) "
                                  f"(weights {wtag}) ({tag})")
-                    ok = False
+                    st["ok"] = False
                     break
             lams = lams[:K]
             line = ("c07.lm " + hdr + f" {K} " + common.wire_list([lo, hi] + lams) + (" " + rdata if rdata else "")
@@ -1043,7 +1243,7 @@ def _check_case(ctx: Ctx, case, pending):
                 if not (torch.equal(st_["J"].double(), Jcat) and torch.equal(st_["R"].double().reshape(-1), Rcat)
                         and torch.equal(torch.nan_to_num(st_["D"], nan=12345.0), torch.nan_to_num(env.sol_log[k_]["D"], nan=12345.0))):
                     ctx.fail(cd, f"update: strategy.update of trial {k_ + 1} does not receive cat(J'), D, cat(R') ({tag})")
-                    ok = False
+                    st["ok"] = False
                     break
 
         # ---------------- the solver's answer
@@ -1056,35 +1256,40 @@ def _check_case(ctx: Ctx, case, pending):
             A, b, D = s["A"].double(), s["b"].double().reshape(-1), s["D_true"].double().reshape(-1)
             if not bool(torch.isfinite(D).all()):
                 continue
-            nA = float(torch.linalg.matrix_norm(A)) if A.numel() else 0.0
+            def rnorm(v):       # Euclidean norm that does not underflow for entries like 1e-237
+                m_ = float(v.abs().max()) if v.numel() else 0.0
+                return 0.0 if m_ == 0.0 else m_ * float((v / m_).norm())
+            nA = rnorm(A.reshape(-1))
             gres = A.T @ (A @ D - b)
-            lim = (2e5 if not f32 else 2e3) * eps * (nA * nA * float(D.norm()) + nA * float(b.norm())) + 1e-300
+            lim = (2e5 if not f32 else 2e3) * eps * (nA * nA * rnorm(D) + nA * rnorm(b)) + 1e-300
             sv = torch.linalg.svdvals(A) if A.numel() else torch.zeros(0)
             smax = float(sv.max()) if sv.numel() else 0.0
-            pos = sv[sv > 1e-14 * smax] if smax > 0 else sv
+            pos = sv[sv > 2 * eps * smax] if smax > 0 else sv      # anything pinv (cut-off max(m,n)·eps) might invert is non-zero
             # usable only when the numerical rank is unambiguous: every singular value is either (numerically) zero or
             # well above the grey zone
             well = smax > 0 and pos.numel() > 0 and float(pos.min()) > (1e-5 if not f32 else 1e-2) * smax
+            # squares of the entries must stay inside the dtype's normal range (a kernel derivative like e^-x can push
+            # the corrected Jacobian to 1e-135: AᵀA underflows and the residual of the normal equations means nothing)
+            well = well and (1e-60 < smax < 1e60 if not f32 else 1e-12 < smax < 1e12)
             if well and float(gres.abs().max()) > lim * max(1.0, (smax / float(pos.min())) ** 2):
                 ctx.fail(cd, f"solve: D returned by {case['solver']} does not satisfy the normal equations of (A, b): "
                              f"|Aᵀ(AD-b)| = {float(gres.abs().max()):.3e} > {lim:.3e} (trial {k_ + 1}) ({tag})")
-                ok = False
+                st["ok"] = False
             uses_pinv = case["solver"] == "PINV" or (case["solver"] == "default" and env.default_solver == "PINV")
             if well and uses_pinv and A.numel() and case["opt"] == "GN":
                 # minimum norm: D orthogonal to the null space of A
                 _, S_, Vh = torch.linalg.svd(A, full_matrices=True)
-                rk = int((S_ > 1e-14 * smax).sum())
+                rk = int((S_ > 2 * eps * smax).sum())
                 N0 = Vh[rk:]
-                floor_ = 1e4 * eps * float(b.norm()) / float(pos.min())
-                if N0.numel() and float((N0 @ D).abs().max()) > (1e-6 if not f32 else 1e-2) * float(D.norm()) + floor_ + 1e-300:
+                floor_ = 1e4 * eps * rnorm(b) / float(pos.min())
+                if N0.numel() and float((N0 @ D).abs().max()) > (1e-6 if not f32 else 1e-2) * rnorm(D) + floor_ + 1e-300:
                     ctx.fail(cd, f"solve: D of the default/PINV solver is not the minimum-norm least-squares solution "
                                  f"(component {float((N0 @ D).abs().max()):.3e} in the null space of A) ({tag})")
-                    ok = False
+                    st["ok"] = False
             ctx.count("solve.checked" if well else "solve.ill-conditioned")
 
         # ---------------- parameter update
         def check_update(p_before, Dk, p_after, what, sign=1.0):
-            nonlocal ok
             Dk = (Dk.double() * sign).reshape(-1)
             if not bool(torch.isfinite(Dk).all()) or not all(bool(torch.isfinite(x_).all()) for x_ in p_before):
                 ctx.count("degenerate.nonfinite-step")
@@ -1096,12 +1301,17 @@ def _check_case(ctx: Ctx, case, pending):
             if Dk.numel() != want_len:
                 return   # (cannot happen after a successful step)
             ref, used = indep_update(env, p_before, Dk)
+            fmax = float(torch.finfo(env.D).max)
+            if any((not bool(torch.isfinite(r_).all())) or (r_.numel() and float(r_.abs().max()) > 1e-3 * fmax) for r_ in ref) \
+                    or any(float(x_.abs().max()) > 1e-3 * fmax for x_ in p_before if x_.numel()):
+                ctx.count("degenerate.update-overflow")     # the exact result leaves the dtype's range (e.g. exp(sigma) in float32)
+                return
             tols = update_tolerances(env, p_before, ref, Dk, eps, fl)
             for pi, (a_, r_, t_, rg) in enumerate(zip(p_after, ref, tols, env.rg)):
                 if not rg:
                     if not torch.equal(a_, p_before[pi]):
                         ctx.fail(cd, f"update: parameter {pi} has requires_grad=False but was changed ({what}, {tag})")
-                        ok = False
+                        st["ok"] = False
                     continue
                 kind, g = env.layout[pi][0], env.layout[pi][1]
                 av, rv = a_.double(), r_.double()
@@ -1113,7 +1323,7 @@ def _check_case(ctx: Ctx, case, pending):
                     ctx.fail(cd, f"update: parameter {pi} ({kind}{'/' + g if g else ''}) after {what} is not "
                                  f"{'Exp(d[:m])·X' if kind == 'G' else 'x + d'} with its own slice of D: error {float(err.reshape(-1)[j]):.3e} "
                                  f"> {float(t_.reshape(-1)[j] * 4):.3e} at flat index {j} ({tag})")
-                    ok = False
+                    st["ok"] = False
             # model (192 bit)
             epss = [eps] if not near_threshold(env, Dk, eps) else [eps * (1 - 2.0 ** -40), eps * (1 + 2.0 ** -40)]
             lines = [update_line(env, p_before, Dk, e_) for e_ in epss]
@@ -1153,8 +1363,27 @@ def _check_case(ctx: Ctx, case, pending):
         for pi, rg in enumerate(env.rg):
             if not rg and not torch.equal(after[pi], before[pi]):
                 ctx.fail(cd, f"update: parameter {pi} has requires_grad=False but was changed by step() ({tag})")
-                ok = False
-    return ok
+                st["ok"] = False
+        return "go"
+
+    twin = None
+    for ci, call in enumerate(case["calls"]):
+        if case.get("fork") == ci and twin is None:
+            twin = make_twin(env, case)
+            if twin is None:
+                ctx.count("copies.twin-unavailable")
+            else:
+                ctx.count("copies.state_dict-twin")
+        for who, e_, other in ((("", env, twin),) + ((("[twin]", twin, env),) if twin is not None else ())):
+            snap = None if other is None else twin_snapshot(other)
+            if do_call(e_, ci, who) == "stop":
+                return st["ok"]
+            if other is not None and twin_snapshot(other, snap) is False:
+                ctx.fail(cd, f"copies: stepping one optimizer changed the parameters / param_groups of the other one "
+                             f"(state_dict copy, call{ci}{who})")
+                return False
+        yield ci        # (17) another history may run between two calls of this one (run_interleaved)
+    return st["ok"]
 
 
 # ----------------------------------------------------------------------------- weight-expansion stream (normalize_RWJ directly)
@@ -1265,7 +1494,7 @@ KERNELS = [("Huber", [1.0]), ("Huber", [0.3]), ("PseudoHuber", [1.0]), ("Cauchy"
 DAMPINGS = [1e-9, 1e-7, 1e-6, 1e-4, 1e-2, 0.1, 1.0, 10.0, 1e3]
 MINS = [1e-9, 1e-6, 1e-6, 1e-6, 1e-3, 0.1, 1.0, 50.0]
 MAXS = [1e32, 1e32, 1e32, 1e3, 10.0, 1.0, 0.5, 1e-3]
-BSHAPES = [[], [], [1], [2], [2], [3], [2, 2], [1, 3], [2, 1, 2], [4], [3, 2], [1, 1]]
+BSHAPES = [[], [], [1], [2], [2], [3], [3], [2, 2], [1, 3], [2, 1, 2], [4], [3, 2], [1, 1], [3, 3], [5], [6], [7], [1, 1, 1], [3, 1]]
 PARAM_TYPES = ([["G", g] for g in U.GROUPS] * 3 + [["A", g] for g in U.GROUPS] * 2 + [["E", 3], ["E", 3], ["E", 4], ["S"], ["S"]])
 
 
@@ -1326,7 +1555,8 @@ def gen_targets(rng, outs, dtype, tmode, tscale=None, layouts=0.0, alias=0.0, fi
     (exact / tiny / ordinary / large mixed in one batch)"""
     if tmode == "none":
         return None
-    ladder = [0.0, 1e-18, 1e-15, 1e-12, 1e-9, 1e-6, 1e-3, 0.1, 0.1, 1.0, 1.0]
+    e_ = EPS[dtype]
+    ladder = [0.0, 1e-18, 1e-15, e_ / 2, e_, 3 * e_, 1e-12, 1e-9, 1e-6, 1e-3, 0.1, 0.1, 1.0, 1.0]      # (18) steps below / at / above Exp's threshold
     tg = []
     for o in outs:
         if tmode == "mixed" and rng.random() < 0.4:
@@ -1435,9 +1665,9 @@ def make_case(rng, **force):
     case["opt"] = force.get("opt", rng.choice(["GN", "LM", "LM"]))
     case["vectorize"] = force.get("vectorize", rng.random() < 0.5)
     if case["opt"] == "GN":
-        case["solver"] = force.get("solver", rng.choice(["default", "PINV", "LSTSQ"]))
+        case["solver"] = force.get("solver", rng.choice(["default", "PINV", "LSTSQ", "LSTSQ_gelsd", "LSTSQ_gelss"]))
     else:
-        case["solver"] = force.get("solver", rng.choice(["default", "Cholesky", "PINV", "LSTSQ", "CG"]))
+        case["solver"] = force.get("solver", rng.choice(["default", "Cholesky", "PINV", "LSTSQ", "CG", "Cholesky_upper", "PINV_herm", "LSTSQ_gelsd"]))
         lam = force.get("damping", rng.choice(DAMPINGS))
         sname = force.get("strategy", rng.choice(["Constant", "Adaptive", "Adaptive", "TrustRegion", "default"]))
         if sname == "Constant":
@@ -1450,13 +1680,18 @@ def make_case(rng, **force):
                                 "min": 1e-9, "max": 1e16}
         else:
             case["strategy"] = None
-        case["min"] = force.get("min", rng.choice(MINS))
-        case["max"] = force.get("max", rng.choice(MAXS))
-        case["reject"] = force.get("reject", rng.choice([0, 1, 2, 3, 5, 16]))
+        case["min"] = force.get("min", rng.choice(MINS + [None]))            # None: the argument is not passed (library default)
+        case["max"] = force.get("max", rng.choice(MAXS + [None]))
+        case["reject"] = force.get("reject", rng.choice([0, 1, 2, 3, 5, 16, None]))
     # kernels / correctors
-    kmode = force.get("kmode", rng.choice(["none", "none", "auto", "auto", "fast", "triggs", "list", "list"]))
+    kmode = force.get("kmode", rng.choice(["none", "none", "auto", "auto", "fast", "triggs", "list", "list", "corr_only"]))
     if kmode == "none":
         case["kernel"], case["corrector"] = None, None
+    elif kmode == "corr_only":     # (10) exactly one of the two related arguments: a corrector without a kernel
+        ks_ = [rand_kernel(rng) for _ in roots]
+        case["kernel"] = None
+        case["corrector"] = ({"type": rng.choice(["FastTriggs", "Triggs"]), "kernel": ks_[0]} if rng.random() < 0.5 else
+                             [{"type": rng.choice(["FastTriggs", "Triggs"]), "kernel": k_} if rng.random() < 0.8 else None for k_ in ks_])
     elif kmode == "auto":
         case["kernel"], case["corrector"] = (force.get("kernel_spec") or rand_kernel(rng)), None
     elif kmode in ("fast", "triggs"):
@@ -1481,6 +1716,15 @@ def make_case(rng, **force):
     # `.tensor()` otherwise): keep the algebra LieTensor output in that configuration only
     if case["kernel"] is None and case["corrector"] is None:
         case["out_as_tensor"] = [rng.random() < 0.5 for _ in roots]
+        if case["targets"] is not None:
+            for sp_, ty_, ast_ in zip(case["targets"], rtys, case["out_as_tensor"]):
+                if sp_ is not None and not ast_ and ty_[0] == "A" and "alias_of" not in sp_ and rng.random() < 0.5:
+                    sp_["as_lie"] = ty_[1]
+    case["ktuple"] = rng.random() < 0.3
+    case["ctor_style"] = rng.choice(["kw", "kw", "pos"])
+    for lf in case["leaves"]:
+        if lf["role"] == "param" and lf["ty"][0] == "E" and rng.random() < force.get("pp_param", 0.2):
+            lf["pp_param"] = True
     # weights
     wmode = force.get("wmode", rng.choice(["none", "none", "ctor", "ctor", "step", "both"]))
     wkw = dict(layouts=force.get("wlayouts", 0.2), wide=rng.random() < force.get("wide", 0.06) * 2, layout=force.get("wlayout"),
@@ -1513,6 +1757,21 @@ def make_case(rng, **force):
                     ed["damping"] = rng.choice(DAMPINGS)
                 call["pg_edit"] = ed
         call["jac_check"] = ci == 0 or rng.random() < force.get("jac_later", 0.5)
+        call["step_style"] = rng.choice(["kw", "kw", "pos", "allkw"])
+        if case["input_mode"] == "dict" and call["step_style"] == "allkw":
+            call["step_style"] = "kw"
+        if rng.random() < force.get("gradmode", 0.25):
+            # torch.inference_mode() is left out on purpose: modjac silently returns an all-zero Jacobian there (observation
+            # in the notes; the library's FastTriggs even asserts against it) — code that needs autograd, scope rule
+            call["grad"] = rng.choice(["no_grad", "enable_grad"])
+        if rng.random() < force.get("gradmode", 0.25):
+            call["req_grad"] = [x_ for x_ in ("inputs", "targets", "weights") if rng.random() < 0.6]
+        if rng.random() < force.get("inject", 0.08):
+            wh = rng.choice(["solver", "corrector"])
+            call["raise"] = {"where": wh, "at": ((rng.choice([0, 0, 1]) if case["opt"] == "LM" else 0) if wh == "solver"
+                                                  else rng.randrange(len(roots)))}
+        elif call["weight"] == "step" and rng.random() < force.get("inject", 0.08) / 2:
+            call["bad_weight_count"] = True
         # OBJECT REUSE / STALE READS: from the second call on, everything the caller can vary per call may vary
         if ci > 0 and rng.random() < force.get("vary", 0.7):
             cur = cur_case
@@ -1573,7 +1832,41 @@ def make_case(rng, **force):
                 call["param_edit"] = pe
         calls.append(call)
     case["calls"] = force.get("calls", calls)
+    if len(case["calls"]) >= 2 and rng.random() < force.get("fork", 0.3):
+        case["fork"] = rng.randrange(1, len(case["calls"]))
+    if case["opt"] == "LM" and rng.random() < force.get("near_clamp", 0.25):
+        near_threshold_clamps(rng, case)
     return case
+
+
+def near_threshold_clamps(rng, case):
+    """(18) put the clamp bounds next to actual diagonal entries of JᵀWJ (a hair below / above, either sign), so that
+    entries sit below, at and above `min` / `max` in one matrix"""
+    try:
+        env = build_env(case)
+        setup_call(env, 0)
+        with contextlib.redirect_stdout(io.StringIO()):
+            Jraw = pp().optim.functional.modjac(env.opt.model, input=(env.input, env.target), flatten=False, vectorize=False)
+        blocks = [torch.cat([raw(b_).reshape(-1, int(raw(p_).numel())) for b_, p_ in zip(Jr, env.params) if p_.requires_grad], 1).double()
+                  for Jr in Jraw]
+        d = (torch.cat(blocks) ** 2).sum(0)
+        d = d[d > 0]
+        if d.numel() == 0:
+            return
+        pick = sorted(d.tolist())
+        h = pick[rng.randrange(len(pick))]
+        f = 1.0 + rng.choice([-1.0, 1.0]) * 2.0 ** rng.choice([-20, -30, -45, -52])
+        if rng.random() < 0.5:
+            case["min"] = h * f
+            if case.get("max") is not None and case["max"] < case["min"]:
+                case["max"] = None
+        else:
+            case["max"] = h * f
+            if case.get("min") is not None and case["min"] > case["max"]:
+                case["min"] = min(case["min"], 1e-9)
+        case["near_clamp"] = True
+    except Exception:
+        return
 
 
 def case_signature(case):
@@ -1793,6 +2086,57 @@ def corner_cases():
     for g in U.GROUPS:
         out.append(make_case(rng, opt=rng.choice(["GN", "LM"]), bshape=[4], ptypes=[["G", g]], full=True, target="peritem", nbad=0, max_rows=60, max_cols=40,
                              dtype="float64", ncalls=1))
+    # ---- hardening pass 2 ------------------------------------------------------------------------------------------
+    quiet = dict(views=0.0, layouts=0.0, wlayouts=0.0, gradmode=0.0, inject=0.0, fork=0.0, near_clamp=0.0, dtype="float64")
+    # (10) a corrector without a kernel; every solver option; positional construction / call; library defaults
+    for opt in ("GN", "LM"):
+        c = make_case(rng, opt=opt, kmode="corr_only", nres=2, ncalls=1, nbad=0, **quiet)
+        c["ctor_style"] = "pos"; c["calls"][0]["step_style"] = "pos"
+        out.append(c)
+    for sv in ("LSTSQ_gelsd", "LSTSQ_gelss"):
+        out.append(make_case(rng, opt="GN", solver=sv, ncalls=1, **quiet))
+    for sv in ("Cholesky_upper", "PINV_herm", "LSTSQ_gelsd"):
+        c = make_case(rng, opt="LM", solver=sv, ncalls=1, nbad=1, **quiet)
+        c["min"] = c["max"] = c["reject"] = None
+        out.append(c)
+    # (11) a failing call (user solver / corrector raising, documented weight-count check) followed by ordinary calls
+    for opt, inj in (("GN", {"where": "solver", "at": 0}), ("LM", {"where": "solver", "at": 0}), ("LM", {"where": "solver", "at": 1}),
+                     ("GN", {"where": "corrector", "at": 0}), ("LM", {"where": "corrector", "at": 1}), ("GN", "count"), ("LM", "count")):
+        c = make_case(rng, opt=opt, ncalls=3, nres=2, wmode="step", vary=0.5, pedit=0.0, nbad=2, keep_shapes=True, **quiet)
+        if inj == "count":
+            c["calls"][1]["weight"] = "step"
+            c["calls"][1]["bad_weight_count"] = True
+        else:
+            c["calls"][1]["raise"] = inj
+        out.append(c)
+    # (12) grad modes and operands that require grad; (13) tuples, LieTensor targets, pp.Parameter around a plain tensor
+    for opt in ("GN", "LM"):
+        for gm in ("no_grad", "enable_grad"):
+            c = make_case(rng, opt=opt, ncalls=2, nbad=0, wmode="step", **quiet)
+            for call in c["calls"]:
+                call["grad"] = gm; call["req_grad"] = ["inputs", "targets", "weights"]
+            out.append(c)
+    for opt in ("GN", "LM"):
+        c = make_case(rng, opt=opt, ptypes=[["E", 3], ["G", "SE3"]], nres=2, kmode="list", pp_param=1.0, ncalls=1, nbad=0, **quiet)
+        c["ktuple"] = True
+        out.append(c)
+        c = make_case(rng, opt=opt, ptypes=[["G", "SE3"]], nres=1, kmode="none", target="near", ncalls=1, nbad=0, **quiet)
+        out.append(c)
+    # (14) a state_dict twin forked in the middle of a history, both continued in turn
+    for opt in ("GN", "LM"):
+        c = make_case(rng, opt=opt, ncalls=3, vary=1.0, pedit=0.5, nbad=1, **{**quiet, "fork": 1.0})
+        out.append(c)
+    # (16) batch extents equal to special numbers (3 = torch.cross's default axis, the feature dimensions 4 / 6 / 7, primes)
+    for g, b in (("SO3", [3]), ("SO3", [4]), ("SE3", [3, 3]), ("SE3", [7]), ("RxSO3", [5]), ("Sim3", [3]), ("SE3", [6]), ("Sim3", [1, 3])):
+        out.append(make_case(rng, opt=rng.choice(["GN", "GN", "LM"]), bshape=b, ptypes=[["G", g]], full=True, nres=1, ncalls=1,
+                             nbad=0, max_rows=130, max_cols=70, depth=3, **quiet))
+    # (18) clamp bounds a hair below / above actual diagonal entries; steps below / at / above Exp's threshold
+    for _ in range(4):
+        out.append(make_case(rng, opt="LM", ncalls=1, nbad=2, **{**quiet, "near_clamp": 1.0}))
+    for dt_ in ("float64", "float32"):
+        for k_ in (0.5, 1.0, 3.0):
+            out.append(make_case(rng, opt="GN", ptypes=[["G", "SO3"]], bshape=[3], full=True, nres=1, depth=1, target="near",
+                                 tscale=k_ * EPS[dt_], ncalls=1, kmode="none", wmode="none", **{**quiet, "dtype": dt_}))
     # frozen parameter (known defect on the current tree)
     out.append(make_case(rng, opt="GN", ptypes=[["E", 3], ["G", "SE3"]], frozen=[True, False], dtype="float64"))
     out.append(make_case(rng, opt="LM", ptypes=[["G", "SO3"], ["A", "SE3"], ["S"]], frozen=[False, True, False], dtype="float64"))
@@ -1811,8 +2155,18 @@ def flush(ctx: Ctx, pending):
 
 
 def run_cases(ctx: Ctx, cases, pending):
+    # (17) histories advance in turn, in groups of 1-3 (different optimizers / dtypes / objects interleaved in one process)
+    groups, i_, k_ = [], 0, 0
+    while i_ < len(cases):
+        sz = (2, 3, 1, 2)[k_ % 4]
+        groups.append(cases[i_:i_ + sz]); i_ += sz; k_ += 1
+    for grp in groups:
+        run_interleaved(ctx, grp, pending)
+        if len(grp) > 1:
+            ctx.count("interleaved.groups")
+        if len(pending) > 400:
+            flush(ctx, pending)
     for case in cases:
-        check_case(ctx, case, pending)
         ctx.note_case(case_signature(case), nontrivial(case))
         ctx.count(f"opt.{case['opt']}.{case['solver']}")
         ctx.count(f"dtype.{case['dtype']}")
@@ -1841,10 +2195,10 @@ def run(ctx: Ctx):
     run_cases(ctx, corner_cases(), pending)
     flush(ctx, pending)
     for c in (itemwise_cases(random.Random(7_0708), 10) + itemwise_cases(random.Random(7_0709), 0, kernels=True)
-              + itemwise_cases(rng, ctx.pick(16, 400))):
+              + itemwise_cases(rng, ctx.pick(16, 300))):
         check_itemwise(ctx, c)
         ctx.note_case(("itemwise",) + case_signature(c), True)
-    n = ctx.pick(60, 1800)
+    n = ctx.pick(60, 1400)
     run_cases(ctx, [make_case(rng) for _ in range(n)], pending)
     flush(ctx, pending)
 
